@@ -320,7 +320,32 @@ pub fn compilable(call: &Call) -> Option<String> {
     None
 }
 
+/// source texts that stress the lexer / parser: every context in which a multi-byte character (or none)
+/// can follow something the lexer measures (C04: compiling never panics)
+fn tricky_sources() -> Vec<String> {
+    let chars = ["é", "\u{a0}", "\u{2003}", "\u{3000}", "😀", "", "a", "\n", "\\", "\""];
+    let ctx: &[&str] = &[
+        "\"a\\\n{C}b\"", "\"\\\n{C}\"", "\"\\{C}\"", "\"\\u{{12{C}}}\"", "\"\\u{{{C}\"", "s'{C}'", "r'{C}'", "t'{C}'", ".a{C}", ".{C}", "[{C}", "# {C}",
+        ".a # {C}\n", "\"{{{{ {C} }}}}\"", "x ={C}1", "{C}", "1 +{C}2", ".a.\"{C}\" = 1", "%{C}", "\"{C}", "'{C}", "s'{C}", ".a[{C}]", "x{C} = 1",
+        "if {C} {{ }}", "f({C})", "upcase(\"{C}\")", "\"{C}{{{{ x }}}}\"", "-{C}", "!{C}", "{{ {C} }}", "[1,{C}]", "{{\"{C}\": 1}}", "x = 1\n{C}\ny = 2",
+    ];
+    let mut out = Vec::new();
+    for t in ctx {
+        for c in chars {
+            out.push(t.replace("{{", "\u{1}").replace("}}", "\u{2}").replace("{C}", c).replace('\u{1}', "{").replace('\u{2}', "}"));
+        }
+    }
+    out
+}
+
 pub fn generate(sink: &mut Sink, rng: &mut Rng, n: u64, op: &str) {
+    if op == "o.c04.fn" {
+        for src in tricky_sources() {
+            if sink.emit(op, &["source".to_string(), hex(src.as_bytes()), "{ }".to_string()]).is_some() {
+                sink.count("sweep:tricky_sources");
+            }
+        }
+    }
     let fns = vrl::stdlib::all();
     let per_fn = (n / fns.len() as u64).max(2);
     for f in &fns {
